@@ -34,15 +34,21 @@ Fixpoint declared (files : list dfile) (p : string) : option N :=
 
 Definition sizes (fs : lfs) (p : string) : option N := option_map fsize (lookup fs p).
 
-(* 404 / 5xx: answers that consume one try and leave the filesystem as it is *)
-Definition transient (b : body) : bool := match b with BMissing | BError => true | _ => false end.
+(* answers that cannot settle the file differently: 404 / 5xx, or the very file that is eventually delivered -
+   same announced size and date - broken off, or (for a file with a declared size) of another length *)
+Definition same_file_fault (v : variant) (a : N) (d : Z) (b : body) : bool :=
+  match b with
+  | BMissing | BError => true
+  | BOk (Some a') (Some d') del ab =>
+      N.eqb a' a && Z.eqb d' d && (ab || (N.ltb 0 (vsize v) && negb (N.eqb del a)))
+  | _ => false
+  end.
 
-(* a metadata file (release file, index) whose first path is answered - at once, or after fewer transient
-   failures than the retry budget (the file then being a required one) - by a complete body of [a] bytes
-   dated [d] *)
+(* a metadata file (release file, index) whose first path is answered - at once, or after fewer such faults
+   than the retry budget (the file then being a required one) - by a complete body of [a] bytes dated [d] *)
 Definition good_meta (f : dfile) (u : upstream) (v : variant) (a : N) (d : Z) : Prop :=
   check_size f = false /\ a <> 0%N /\ ((0 < vsize v)%N -> a = vsize v) /\
   exists vs p ps k, variants f = v :: vs /\ vpaths v = p :: ps /\ k < max_tries /\
     (k = 0 \/ (ignore_errors f = false /\ ignore_missing f = false)) /\
-    (forall j, j < k -> transient (rbody (nth_resp (script_of u p) j)) = true) /\
+    (forall j, j < k -> same_file_fault v a d (rbody (nth_resp (script_of u p) j)) = true) /\
     rbody (nth_resp (script_of u p) k) = BOk (Some a) (Some d) a false.
